@@ -18,6 +18,7 @@ import traceback
 import icontract
 
 from vlib import symeval as se
+from vlib.core import CaseTimeout
 
 _HELPERS = ('flatten_expr', 'distribute_product', 'distribute_quotient', 'sum_literals', 'mul_literals',
             'div_literals', 'collect_coefficients', 'separate_coefficients')
@@ -98,6 +99,8 @@ def auto_envs(expr, n=8):
                 kinds[v.name.lower()] = float
             else:
                 return None
+    except CaseTimeout:
+        raise
     except Exception:  # pylint: disable=broad-except
         return None
     rng = random.Random(len(kinds) * 7919 + 17)
@@ -149,6 +152,8 @@ def compare(expr, result, envs, stats=None):
 def _r(e):
     try:
         return se.render(e)
+    except CaseTimeout:
+        raise
     except Exception:  # pylint: disable=broad-except
         return str(e)
 
@@ -202,6 +207,8 @@ def install():
         try:
             if mod is not None and mod is not S and getattr(mod, 'simplify', None) is orig:
                 setattr(mod, 'simplify', contracted)
+        except CaseTimeout:
+            raise
         except Exception:  # pylint: disable=broad-except
             pass
     for name in _HELPERS:
@@ -240,6 +247,8 @@ def attribute(expr, flags, envs):
     MON.tracing = True
     try:
         original_simplify()(expr, flags)
+    except CaseTimeout:
+        raise
     except Exception as exc:  # pylint: disable=broad-except
         MON.tracing = False
         return f'simplify:exception:{type(exc).__name__}:{innermost_symbolic_frame(exc)}', None
@@ -310,6 +319,8 @@ def minimal_subtree(expr, flags, envs, key):
     for sub in acc:
         try:
             out = simp(sub, flags)
+        except CaseTimeout:
+            raise
         except Exception:  # pylint: disable=broad-except
             continue
         rep = compare(sub, out, envs)
